@@ -1,6 +1,7 @@
 """C07 — hashing is a pure function of its inputs across entry points and call history."""
 from checks.common import *
 from checks import cryptstream as CS, settings as S
+from checks.c14 import WRAPS
 
 def build_ops(R):
     quick = R.tier == "quick"
@@ -21,8 +22,22 @@ def build_ops(R):
         nobj = R.rng.randrange(1, 4)
         for i in range(nobj):
             ops.append("O %d %s %d %d" % (i, R.rng.choice("zfrp"), R.rng.randrange(16), R.rng.randrange(1 << 30))); meta.append(("setup", "obj", 0, 0))
+        # errno on entry: half of the histories never clear it (each call sees what the previous one left: seeded/C07), the others set it at random points
+        keep = R.rng.random() < 0.5
+        ops.append("ERRNO keep" if keep else "ERRNO 0"); meta.append(("setup", "errno", 0, 0))
+        for slot in range(2): ops.append("RASET %d null" % slot); meta.append(("setup", "raset", 0, 0))
         for k in range(n):
             r = R.rng.random()
+            if r >= 0.10 and r < 0.14 and not keep:
+                ops.append("ERRNO " + R.rng.choice(["ERANGE", "EINVAL", "ENOMEM", "4", "0", "11"])); meta.append(("setup", "errno", 0, 0)); continue
+            if r >= 0.14 and r < 0.18:
+                # calls that fail with ERANGE / EINVAL and leave it in errno
+                ops.append(R.rng.choice(["G rn %s 0 %s 16 3" % (hx(b"$6$"), hx(bytes(16))), "G rn %s 0 %s 16 192" % (hx(b"$zz$"), hx(bytes(16))),
+                                         CS.crypt_op("rn", R.rng.randrange(nobj), b"pw", b"$1$x", 100), CS.crypt_op("r", R.rng.randrange(nobj), b"z" * 512, b"$1$x")]))
+                meta.append(("setup", "failing-call", 0, 0)); continue
+            if r >= 0.22 and r < 0.32:
+                m, tag, ph, st = R.rng.choice(pool)
+                ops.append("RA %d %s %s" % (R.rng.randrange(2), hx(ph), hx(st))); meta.append((m, tag, len(ph or b""), len(st or b""))); continue
             if r < 0.05:
                 ops.append("O %d %s %d %d" % (R.rng.randrange(nobj), R.rng.choice("zfrp"), R.rng.randrange(16), R.rng.randrange(1 << 30)))
                 meta.append(("setup", "refill", 0, 0)); continue
@@ -34,17 +49,48 @@ def build_ops(R):
             ops.append(CS.crypt_op(e, R.rng.randrange(nobj), ph, st)); meta.append((m, tag, len(ph or b""), len(st or b"")))
     return ops, meta
 
+def build_so_ops(R):
+    """histories through the freshly linked shared library, with the obsolete DES interface (static area and objects) in between"""
+    quick = R.tier == "quick"
+    ops = []
+    cheap = ["descrypt", "bigcrypt", "bsdicrypt", "md5crypt", "nt", "sha256crypt", "sha512crypt", "bcrypt", "sha1crypt", "sunmd5"]
+    pool = [(R.rng.choice([b"pw", b"", b"correct horse", bytes(R.rng.randrange(1, 256) for _ in range(R.rng.randrange(1, 40)))]), S.CANON[m]) for m in cheap for _ in range(2)]
+    pool += [(b"pw", b"$1$bad:salt"), (b"pw", b"*0"), (b"q" * 512, b"ab")]
+    for h in range(12 if quick else 400):
+        dirty = {}
+        for i in range(3):
+            fill = R.rng.choice("zfrp"); dirty[i] = fill != "z"
+            ops.append("O %d %s %d %d" % (i, fill, R.rng.randrange(16), R.rng.randrange(1 << 30)))
+        ops.append(R.rng.choice(["ERRNO keep", "ERRNO 0", "ERRNO ERANGE"]))
+        for k in range(R.rng.randrange(10, 50)):
+            r = R.rng.random()
+            key = bytes(R.rng.randrange(256) for _ in range(8)); blk = bytes(R.rng.randrange(256) for _ in range(8))
+            if r < 0.12: ops.append("SK %s %d" % (hx(key), R.rng.randrange(50)))
+            elif r < 0.24: ops.append("EN %s %d %d" % (hx(blk), R.rng.randrange(2), R.rng.randrange(50)))
+            elif r < 0.32: o = R.rng.randrange(3); dirty[o] = False; ops.append("SKR %d %s %d" % (o, hx(key), R.rng.randrange(50)))
+            elif r < 0.40:
+                o = R.rng.randrange(3)
+                # encrypt_r on an object whose key schedule is arbitrary bytes is outside the interface's contract (the schedule indexes tables)
+                if dirty[o]: dirty[o] = False; ops.append("SKR %d %s %d" % (o, hx(key), R.rng.randrange(50)))
+                ops.append("ENR %d %s %d %d" % (o, hx(blk), R.rng.randrange(2), R.rng.randrange(50)))
+            elif r < 0.45: ops.append("G st %s 0 %s 16 0" % (hx(R.rng.choice([b"$1$", b"ab", b"_", b"$5$"])), hx(bytes(R.rng.randrange(256) for _ in range(16)))))
+            else:
+                ph, st = R.rng.choice(pool)
+                ops.append(CS.crypt_op(R.rng.choice(["rn", "r", "st"]), R.rng.randrange(3), ph, st))
+    return ops
+
 def oracle(ops, meta, il):
     """the same request must give the same answer wherever it occurs, through whichever entry point"""
     bad = []
     seen = {}
     for op, line in zip(ops, il):
-        if not op.startswith("C "): continue
+        if not op.startswith(("C ", "RA ")): continue
         t = op.split(" "); f = fields(line)
+        if t[0] == "C" and len(t) > 5: continue      # an explicit (too small) size is part of the request
         out = f.get("out", "")
         failed = f.get("ret") == "NULL" or out.startswith("2a")
         ans = ("fail",) if failed else ("ok", out)
-        key = (t[3], t[4])
+        key = (t[3], t[4]) if t[0] == "C" else (t[2], t[3])
         if key in seen and seen[key][0] != ans:
             bad.append((op, "same (phrase, setting) answered differently at another point of the history / through another entry point: %s vs %s (first at: %s)"
                         % (ans, seen[key][0], seen[key][1]), line))
@@ -57,19 +103,30 @@ def run(R):
     ok, badthm = R.prove()
     ops, meta = build_ops(R)
     starts = [i for i, m in enumerate(meta) if m[1] == "obj" and (i == 0 or meta[i - 1][1] != "obj")]
-    ops, meta, il, ml = CS.run_budgeted(R, ops, meta, group_starts=starts)
+    ops, meta, il, ml = CS.run_budgeted(R, ops, meta, group_starts=starts, wraps=WRAPS)
     def proj(op, a, b):
         if op.startswith("C "): return CS.proj_crypt(op, a, b)
+        if op.startswith("RA "):
+            ka = (a.get("ret"), a.get("out"), a.get("errno") if a.get("ret") == "NULL" else None, a.get("wz"))
+            kb = (b.get("ret"), b.get("out"), b.get("errno") if b.get("ret") == "NULL" else None, b.get("wz"))
+            return None if ka == kb else "crypt_ra result differs"
         if op.startswith("G "): return None if (a.get("ret"), a.get("errno")) == (b.get("ret"), b.get("errno")) else "gensalt differs"
         return None if a == b else "setup differs"
     diffs = compare(R, ops, il, ml, proj, "history")
     bad = oracle(ops, meta, il)
-    cm = [(o, m, l) for o, m, l in zip(ops, meta, il) if o.startswith("C ")]
+    # part 2: the same through libcrypt.so.1 with setkey/encrypt/setkey_r/encrypt_r interleaved
+    ops2 = build_so_ops(R)
+    il2 = R.run_so(ops2); ml2 = R.run_model(ops2)
+    diffs += compare(R, ops2, il2, ml2, proj, "history through the shared library")
+    bad += oracle(ops2, None, il2)
+    R.cov["so_history_ops"] = len(ops2)
+    cm = [(o, m, l) for o, m, l in zip(ops, meta, il) if o.startswith(("C ", "RA "))]
     R.cov["evaluations"] = len(cm)
-    R.cov["distinct_nontrivial"] = len({(o.split(" ")[3], o.split(" ")[4]) for o, _, _ in cm})
+    R.cov["distinct_nontrivial"] = len({tuple(o.split(" ")[-2:]) if o.startswith("RA ") else (o.split(" ")[3], o.split(" ")[4]) for o, _, _ in cm})
     R.cov["histories"] = sum(1 for o, m in zip(ops, meta) if m[1] == "obj")
     R.cov["rule"] = ("random histories of 5..60 calls over 1..3 shared objects (pre-filled zero / 0xff / pattern / random, all 16 alignments, refilled mid-history), "
-                     "mixing crypt_r, crypt_rn, static crypt, crypt_gensalt and failing requests, drawn from a pool of recurring (phrase, setting) "
+                     "mixing crypt_r, crypt_rn, crypt_ra, static crypt, crypt_gensalt, setkey/encrypt and failing requests, with errno on entry either never cleared "
+                     "between calls or set to arbitrary values, drawn from a pool of recurring (phrase, setting) "
                      "pairs for all 16 methods; non-trivial = distinct (phrase, setting) pairs")
     CS.dist_cov(R, [m for _, m, _ in cm], [l for _, _, l in cm])
     CS.sample_cov(R, ops, il, ml)
